@@ -61,8 +61,6 @@ Inductive case :=
    real regexes derive from that result *)
 | CExtract (t : node) (from_parser : bool) (o : xobs)
            (steps : list (option string)) (parent : list string)
-(* the generator's tree and the tree the real parser built from its printed text *)
-| CParse (generated parsed : node)
 (* one key through the two real regexes *)
 | CRegex (key : string) (s : option (option string)) (p : option string)
 (* prepare_workflow *)
@@ -71,20 +69,6 @@ Inductive case :=
 | CRF (rest_ok : bool) (ovs : list overlay_spec) (o : option (list string))
 (* prepare_function_test's first watched resource (None = PermFail) *)
 | CFT (kind name : string) (cases_ok inputs_ok : bool) (o : option resource).
-
-Fixpoint node_eqb (a b : node) {struct a} : bool :=
-  match a, b with
-  | Tok t v, Tok t' v' => String.eqb t t' && String.eqb v v'
-  | N d cs, N d' cs' =>
-      String.eqb d d' &&
-      (fix go (xs ys : list node) : bool :=
-         match xs, ys with
-         | [], [] => true
-         | x :: xr, y :: yr => node_eqb x y && go xr yr
-         | _, _ => false
-         end) cs cs'
-  | _, _ => false
-  end.
 
 Definition check_case (c : case) : bool :=
   match c with
@@ -95,7 +79,6 @@ Definition check_case (c : case) : bool :=
       | XDone keys => oset_eqb (needed_steps keys) steps && sset_eqb (needed_parent keys) parent
       | XRaised _ => true
       end
-  | CParse g p => node_eqb g p && cel_expr_wf g
   | CRegex key s p =>
       opt_eqb ostr_eqb (steps_name key) s && ostr_eqb (parent_name key) p
   | CWorkflow steps o started =>
@@ -112,4 +95,16 @@ Definition check_case (c : case) : bool :=
       end
   | CFT kind name cases_ok inputs_ok o =>
       opt_eqb resource_eqb (ft_watched_head kind name cases_ok inputs_ok) o
+  end.
+
+(* hand-damaged (non-grammar) trees: when the model says the real code formats a lark Tree
+   into a key (its repr is not modelled) the case is not compared *)
+Definition check_case_damaged (c : case) : bool :=
+  match c with
+  | CExtract t _ o _ _ =>
+      match extract t with
+      | Raised EOutOfModel => true
+      | _ => check_case c
+      end
+  | _ => false
   end.
